@@ -9,6 +9,7 @@
   printed as the C string it holds.
 -/
 import RtoscModel.Param.Port
+import RtoscModel.Param.Wide
 import Driver.Common
 namespace Driver.ParamEngine
 open Rtosc Rtosc.Param
@@ -32,6 +33,30 @@ def parseKind : String → Option Kind
 
 def parseTy : String → IntTy
   | "i8" => .i8 | "u8" => .u8 | "i16" => .i16 | _ => .i32
+
+/-- storage tokens of the wide C integer types (Param/Wide.lean); `none`: the `IntTy` path -/
+def parseWide : String → Option CTy
+  | "u16" => some .u16 | "u32" => some .u32 | "i64" => some .i64 | "u64" => some .u64 | _ => none
+
+/-- `Rtosc.Param.dispatch` for an rParam / rParamI port on a field of a wide type: the same
+    composition (`portMatches`, `Meta.container`, the callback at `pfx ++ path`) with `intCbW` -/
+def dispatchW (ty : CTy) (p : Port) (pfx path : Bytes) (fld : Field) (args : List Arg) :
+    Except Err (Option (Field × List Event)) :=
+  match portMatches p.pattern path (args.map Arg.tag) with
+  | .error e => .error e
+  | .ok false => .ok none
+  | .ok true =>
+    match Meta.container p.block with
+    | none => .error .oob
+    | some pm =>
+      let r : Except Err (Field × List Event) :=
+        match p.kind, fld with
+        | .param, .ints [x] => (intCbW ty ty Arg.c pm (pfx ++ path) x args).map fun (v, ev) => (.ints [v], ev)
+        | .paramI, .ints [x] => (intCbW ty ty Arg.i pm (pfx ++ path) x args).map fun (v, ev) => (.ints [v], ev)
+        | _, _ => .error .unsup
+      match r with
+      | .error e => .error e
+      | .ok r => .ok (some r)
 
 def allSome {α} : List (Option α) → Option (List α)
   | [] => some []
@@ -105,17 +130,19 @@ def showErr : Err → String
   | .oob => "oob"
   | .unsup => "unsup"
 
-def runMsgs (p : Port) (pfx name : Bytes) : Field → List String → List String
+def runMsgs (w : Option CTy) (p : Port) (pfx name : Bytes) : Field → List String → List String
   | _, [] => ["X=ok"]
   | fld, tok :: rest =>
     match parseMsg tok with
-    | none => "bad-msg" :: runMsgs p pfx name fld rest
+    | none => "bad-msg" :: runMsgs w p pfx name fld rest
     | some (idx, args) =>
-      match dispatch p pfx (name ++ idx) fld args with
+      match (match w with
+             | some ty => dispatchW ty p pfx (name ++ idx) fld args
+             | none => dispatch p pfx (name ++ idx) fld args) with
       | .error e => [s!"err:{showErr e}"]
-      | .ok none => s!"0;-;{showState fld}" :: runMsgs p pfx name fld rest
+      | .ok none => s!"0;-;{showState fld}" :: runMsgs w p pfx name fld rest
       | .ok (some (fld', ev)) =>
-        s!"1;{showEvents (pfx ++ name ++ idx) (changed fld fld') ev};{showState fld'}" :: runMsgs p pfx name fld' rest
+        s!"1;{showEvents (pfx ++ name ++ idx) (changed fld fld') ev};{showState fld'}" :: runMsgs w p pfx name fld' rest
 
 def step (line : String) : String :=
   match words line with
@@ -123,7 +150,10 @@ def step (line : String) : String :=
     match parseKind kind, len.toNat?, ofHex pat, ofHex blk, parseState storage init, ofHex mode with
     | some k, some n, some pattern, some block, some fld, some pfx =>
       let p : Port := ⟨k, parseTy storage, n, pattern, block⟩
-      " ".intercalate (runMsgs p pfx id.toUTF8.toList fld msgs)
+      let w := match k with
+        | .param | .paramI => parseWide storage
+        | _ => none
+      " ".intercalate (runMsgs w p pfx id.toUTF8.toList fld msgs)
     | _, _, _, _, _, _ => "bad-op"
   | _ => "bad-op"
 
